@@ -87,7 +87,7 @@ def single(case, lon):
 def forward_row(case, rec):
     """executes geo2grid on every longitude of the row; returns list of dicts (or None where the
     call was outside the domain / the input object could not be built) plus the oracle arrays."""
-    ell, prj = ELLS[case['ell']], PRJS[case['prj']]
+    ell, prj = cfg.ell_obj(case['ell']), PRJS[case['prj']]
     a, invf = ELL_AF[case['ell']]
     fe, fn, k0, zw, icm = PRJ_PAR[case['prj']]
     lat = case['lat']
